@@ -86,7 +86,7 @@ def dispatchCli : List String → Option (Obs × Option Obs)
     -- error lines: unparsable arguments, and pattern lookups whose directory cannot be read
     let nerr := (rootArgs.filter fun p => !exists_ p && (match Seq.parse .hash4 p with
       | .error _ => true
-      | .ok fs => (lookup fs.dir).isNone)).length
+      | .ok fs => (lookup (openDir fs.dir)).isNone)).length
     let names := t.map fun n => Seqls.baseName n.path
     let mixed := mixedShapes names
     let cover := sortBytes (expandSeqs seqs |>.map fun p =>
